@@ -28,20 +28,22 @@ type Config struct {
 	PathLimit   int
 	QueryMs     int
 	Workers     int
+	ObTimeoutS  int
 	BigAbsBound *big.Int
 	Bounds      map[string]int // per-field slice bounds (suffix match on materialisation name)
 }
 
 func defaultConfig(tier string) *Config {
-	c := &Config{Tier: tier, Unwind: 24, MaxMake: 64, MaxStrCells: 4, EnumBound: 3, SliceBound: 2, MaxMapPerm: 3,
-		StepLimit: 2_000_000, PathLimit: 20000, QueryMs: 20000, Workers: 16, Bounds: map[string]int{}}
+	c := &Config{Tier: tier, Unwind: 24, MaxMake: 64, MaxStrCells: 4, EnumBound: 3, SliceBound: 1, MaxMapPerm: 3,
+		StepLimit: 2_000_000, PathLimit: 20000, QueryMs: 20000, Workers: 16, ObTimeoutS: 600, Bounds: map[string]int{}}
 	c.BigAbsBound = new(big.Int).Lsh(big.NewInt(1), 200)
 	if tier == "thorough" {
 		c.EnumBound = 4
-		c.SliceBound = 3
+		c.SliceBound = 2
 		c.QueryMs = 120000
 		c.PathLimit = 200000
 		c.Unwind = 40
+		c.ObTimeoutS = 3600
 	}
 	return c
 }
@@ -391,8 +393,9 @@ func (e *Engine) explore(ob *Obligation) *ObResult {
 	t0 := time.Now()
 	r := &ObResult{Name: ob.Name, Aborts: map[string]int{}, AbortSample: map[string]string{}, Covers: map[string]int{}, Funcs: map[string]int{}}
 	var mu sync.Mutex
-	work := [][]int{{}}
+	work := [][]int{{}} // global pool; workers keep their own DFS stacks and donate when the pool runs dry
 	active := 0
+	idle := 0
 	cond := sync.NewCond(&mu)
 	seenViol := map[string]bool{}
 	nw := e.cfg.Workers
@@ -407,55 +410,69 @@ func (e *Engine) explore(ob *Obligation) *ObResult {
 				return
 			case <-tk.C:
 				mu.Lock()
-				fmt.Fprintf(os.Stderr, "  .. %s: %.0fs paths=%d queue=%d active=%d ok=%d aborts=%v viol=%d\n", ob.Name, time.Since(t0).Seconds(), r.Paths, len(work), active, r.PathsOK, r.Aborts, len(r.Violations))
+				fmt.Fprintf(os.Stderr, "  .. %s: %.0fs paths=%d pool=%d active=%d ok=%d aborts=%v viol=%d\n", ob.Name, time.Since(t0).Seconds(), r.Paths, len(work), active, r.PathsOK, r.Aborts, len(r.Violations))
 				mu.Unlock()
 			}
 		}
 	}()
 	defer close(stopProg)
+	stop := false
 	for w := 0; w < nw; w++ {
 		wg.Add(1)
 		go func() {
 			defer wg.Done()
 			m := e.newMachine()
 			defer m.sol.Close()
+			var local [][]int
 			for {
+				var p []int
 				mu.Lock()
-				for len(work) == 0 && active > 0 {
-					cond.Wait()
+				if r.Paths >= e.cfg.PathLimit || time.Since(t0).Seconds() > float64(e.cfg.ObTimeoutS) {
+					if !stop && (len(work) > 0 || len(local) > 0 || active > 0) {
+						r.PathLimited = true
+					}
+					stop = true
 				}
-				if len(work) == 0 && active == 0 {
+				if stop {
 					mu.Unlock()
 					cond.Broadcast()
 					return
 				}
-				if r.Paths >= e.cfg.PathLimit {
-					r.PathLimited = true
-					work = nil
-					mu.Unlock()
-					cond.Broadcast()
-					if active == 0 {
+				if len(local) > 0 {
+					p = local[len(local)-1]
+					local = local[:len(local)-1]
+					// donate the shallowest local item when others are starving
+					if len(work) == 0 && idle > 0 && len(local) > 0 {
+						work = append(work, local[0])
+						local = local[1:]
+						cond.Broadcast()
+					}
+				} else {
+					for len(work) == 0 && active > 0 && !stop {
+						idle++
+						cond.Wait()
+						idle--
+					}
+					if stop || (len(work) == 0 && active == 0) {
+						mu.Unlock()
+						cond.Broadcast()
 						return
 					}
-					mu.Lock()
-					for active > 0 {
-						cond.Wait()
-					}
-					mu.Unlock()
-					return
+					p = work[len(work)-1]
+					work = work[:len(work)-1]
 				}
-				p := work[len(work)-1]
-				work = work[:len(work)-1]
 				active++
 				r.Paths++
 				mu.Unlock()
 
 				res, alts := m.runPath(ob, p)
+				local = append(local, alts...)
 
 				mu.Lock()
 				active--
-				if !r.PathLimited {
-					work = append(work, alts...)
+				if len(work) == 0 && idle > 0 && len(local) > 1 {
+					work = append(work, local[0])
+					local = local[1:]
 				}
 				switch {
 				case res.End == "ok":
